@@ -207,6 +207,16 @@ class RelayMode(vlib.Mode):
                 case.append(line)
                 if line.split(" ")[0] in ("deny", "allow"): case.append("sync")
                 continue
+            if rng.random() < 0.05:
+                # a token of the other connection type (its scopes carry no read/write capability) presented at /session/…, then its code used
+                t, b = rng.choice(TOPICS[:3]), rng.choice(BIDS)
+                cred = tok(now, topic=sval(t), bid=sval(b), prefix=sval("shell"), scopes=lval(rng.choice([["host"], ["client"], ["host", "client"], ["host", "read"]])))
+                case.append(f"session {cred} {hx(t)}")
+                if b not in st["denied"]:
+                    st["codes"].append(t)
+                    case.append(f"ws {hx('/session/' + t)} c{len(st['codes']) - 1}")
+                    if "72656164" in cred.split("scopes=")[1].split(";")[0]: st["joined"] = st.get("joined", 0) + 1
+                continue
             if r < 0.30:      # session request, valid or with one/two defects
                 t, b = rng.choice(TOPICS[:3]), rng.choice(BIDS)
                 base = dict(topic=sval(t), bid=sval(b), scopes=lval(rng.choice(SCOPESETS[:4] if rng.random() < 0.7 else SCOPESETS)))
@@ -233,8 +243,9 @@ class RelayMode(vlib.Mode):
                     t = rng.choice(TOPICS[:3]); ref = rng.choice(["-", "x", f"c{ncodes + rng.randrange(3)}"])
                 meta = ""
                 if rng.random() < 0.25:     # client-controlled metadata of unusual size/content (reported verbatim by /status and the stats topic)
+                    # (no leading/trailing blanks: HTTP itself strips optional whitespace around header values — not the relay's doing)
                     ua = rng.choice(["Mozilla/5.0 (X11; Linux x86_64) " + "AppleWebKit/537.36 " * rng.choice([1, 12, 40]), "x" * rng.choice([255, 256, 257, 1000, 4000]),
-                                     "ua with \"quotes\" and \\ backslash", "tab\there", "ü-agent/1.0", " lead and trail ", "a"])
+                                     "ua with \"quotes\" and \\ backslash", "tab\there", "ü-agent/1.0", "inner  double  blanks", "a"]).strip()
                     meta = " " + hx(ua)
                     if rng.random() < 0.5:
                         meta += " " + hx(rng.choice([", ".join(f"10.{i}.{i * 7 % 250}.{i * 13 % 250}" for i in range(rng.choice([2, 20, 60]))), "::1", "unknown", "1.2.3.4, evil\"quote"]))
